@@ -18,6 +18,9 @@ CHECKS = {
  "C09": dict(cat="model_checking", design="3/C09", technique="TLA+ specs of the composition cache (HashTable.tla) and of query memoisation (ThermoCache.tla) model-checked by TLC; real objects bound by trace validation of query/cache-control histories",
              text="The cache clause is decided by HashTable.tla: TLC explores all enable/precision/clear/add/retrieve histories and HashTable_Trace.tla accepts an execution of the real HashTable only if every hit/miss, returned value and table size equals the specification's (keys are exact integers, so int32 wrap-around is visible). The purity clause for pycalphad-backed queries is decided by validating query histories against a memo specification.",
              note="domain points have float keys equal to their exact keys (self-checked); histories bounded (<=4 exhaustive, <=10 seeded)"),
+ "C04": dict(cat="model_checking", design="3/C04", technique="TLA+ transcription of the diffusion model (Diffusion.tla: profile builders, setup, boundary conditions, fluxes, both iterators, clipping, solver loop) evaluated by TLC on each configuration with the conservation/boundary clauses checked on every step; real models bound by equality of the recorded run",
+             text="Balance (telescoping with boundary fluxes), closed-system invariance across steps and across solve calls, fixed Dirichlet nodes and bounds are evaluated by TLC on its own exact run of every configuration; the real SinglePhaseModel driven by scripted thermodynamics must reproduce the predicted record (times and profiles) step by step, which binds the code to the checked transcription.",
+             note="exact domain is coarse and dyadic (k/16 compositions, <=4 Euler steps or one RK4 step, <=6 nodes) because of TLC's 32-bit integers; homogenization model covered by conservation traces only"),
 }
 
 NOT_APPLICABLE = {
